@@ -161,6 +161,12 @@ func genCLI(t *rapid.T) cliCase {
 		}
 		c.N = rapid.IntRange(0, total+1).Draw(t, "nb")
 		c.Flag = rapid.Bool().Draw(t, "unaligned")
+		c.K = 1
+		if c.N >= 1 && rapid.Bool().Draw(t, "replicated") {
+			// -r: several replicates from the same count file (the output is then phylip)
+			c.K = rapid.IntRange(2, 6).Draw(t, "replicates")
+			c.Flag = false
+		}
 	case "mutate snvs":
 		c.A = genRate(t, "rate", 1, 0, true)
 	case "mutate gaps":
@@ -249,6 +255,9 @@ func runCLI(dir string, c cliCase, threads int) (cliRun, []string) {
 		args = append(args, "-n", strconv.Itoa(c.N), "-c", cf)
 		if c.Flag {
 			args = append(args, "--unaligned")
+		}
+		if c.K > 1 {
+			args = append(args, "-r", strconv.Itoa(c.K))
 		}
 	case "mutate snvs":
 		args = append(args, "-r", ff(c.A))
@@ -398,7 +407,16 @@ func checkCLI(dir string) func(c cliCase) (pbt.Outcome, error) {
 		if r1.res.Exit != 0 {
 			return o, fmt.Errorf("goalign %v: exit %d, stderr %q", args, r1.res.Exit, trunc(r1.res.Stderr, 400))
 		}
-		got, perr := cli.ParseFasta(r1.res.Stdout)
+		var replicates [][]gen.Row
+		var got []gen.Row
+		var perr error
+		if c.Cmd == "sample rarefy" && c.K > 1 {
+			if replicates, perr = parsePhylips(r1.res.Stdout); perr == nil && len(replicates) > 0 {
+				got = replicates[0]
+			}
+		} else {
+			got, perr = cli.ParseFasta(r1.res.Stdout)
+		}
 		if perr != nil {
 			return o, fmt.Errorf("goalign %v: unreadable output: %v", args, perr)
 		}
@@ -433,7 +451,20 @@ func checkCLI(dir string) func(c cliCase) (pbt.Outcome, error) {
 			}
 			drew = true
 		case "sample rarefy":
-			err = invRarefy(orig, got, c.N, counts)
+			if c.K > 1 {
+				o.Class("sample rarefy -r")
+				if len(replicates) != c.K {
+					err = fmt.Errorf("%d replicates requested, %d alignments written", c.K, len(replicates))
+					break
+				}
+				for _, rep := range replicates {
+					if err = invRarefy(orig, rep, c.N, counts); err != nil {
+						break
+					}
+				}
+			} else {
+				err = invRarefy(orig, got, c.N, counts)
+			}
 			drew = c.N >= 1
 		case "sample sites":
 			var outs [][]gen.Row
@@ -527,6 +558,47 @@ func checkCLI(dir string) func(c cliCase) (pbt.Outcome, error) {
 		o.NonTrivial = (changed || drew) && n >= 2 && l >= 2
 		return o, nil
 	}
+}
+
+// parsePhylips is a minimal reader of concatenated sequential/interleaved phylip alignments whose
+// rows fit on one line (short alignments): header "n L", then n lines "name  blocks of residues"
+func parsePhylips(s string) ([][]gen.Row, error) {
+	var out [][]gen.Row
+	lines := strings.Split(s, "\n")
+	i := 0
+	for i < len(lines) {
+		f := strings.Fields(lines[i])
+		i++
+		if len(f) == 0 {
+			continue
+		}
+		if len(f) != 2 {
+			return nil, fmt.Errorf("phylip header expected, found %q", lines[i-1])
+		}
+		n, e1 := strconv.Atoi(f[0])
+		l, e2 := strconv.Atoi(f[1])
+		if e1 != nil || e2 != nil {
+			return nil, fmt.Errorf("phylip header expected, found %q", lines[i-1])
+		}
+		rows := make([]gen.Row, 0, n)
+		for k := 0; k < n; k++ {
+			if i >= len(lines) {
+				return nil, fmt.Errorf("phylip alignment truncated: %d of %d rows", k, n)
+			}
+			g := strings.Fields(lines[i])
+			i++
+			if len(g) < 1 {
+				return nil, fmt.Errorf("empty line inside a phylip alignment")
+			}
+			seq := strings.Join(g[1:], "")
+			if len(seq) != l {
+				return nil, fmt.Errorf("phylip row %q has %d residues, header says %d", g[0], len(seq), l)
+			}
+			rows = append(rows, gen.Row{Name: g[0], Seq: seq})
+		}
+		out = append(out, rows)
+	}
+	return out, nil
 }
 
 // sameRun compares two executions byte for byte (exit status, standard output, output files)
